@@ -604,6 +604,9 @@ case('C09', "C09-seed5", "mutant", 'seeded (round 3): regctl image export --plat
 case('C15', "C15-seed6", "mutant", 'seeded (round 3): regctl image mod --annotation-base clears the digest with SetDigest("")',
      patch="seeded/C15-6/patch.diff", expect=[('C15.R8', 'newImageModCmd', 'SetDigest("")')])
 
+case('C04', "C04-seed5", "mutant", 'seeded (round 3): blob existence cache records a blob after its upload failed',
+     patch="seeded/C04-5/patch.diff", expect=[('C04.R11', 'BlobPut', 'nothing but cancel after a failed upload')])
+
 # thirty unexported functions the rules know by name, renamed throughout (resolved by role, internal/rules/roles.go)
 for _p in ["C%02d" % i for i in range(1, 21)]:
     case(_p, _p + "-b-rename", "benign", "thirty unexported anchor functions renamed throughout the module", patch="selftest/variants/all-b-rename.diff")
